@@ -48,7 +48,7 @@ SCHEME_CONST = 'Scheme = "asis"'        # TracePipelineCache never uses layer B;
 
 MCCFG = """SPECIFICATION HSpec
 CONSTANTS N = {n} Rich = FALSE Shard = {shard} NShards = {nshards} MaxLen = {maxlen} MaxMut = {maxmut}
-          Family = "{fam}" Export = {export} Scheme = "{scheme}"
+          Family = "{fam}" Export = {export} ExportMod = {exportmod} Scheme = "{scheme}"
 VIEW HView
 INVARIANT HKeysSane HTabSane HExport {invs}
 """
@@ -158,12 +158,13 @@ def model_runs(ctx: Ctx, specs: list[dict], timeout: float = 3000) -> dict[str, 
     """Run MC_PipelineCache for every spec {name, n, fam, maxlen, maxmut, scheme, export, nshards, invs}; all shards of
     all specs share one pool of TLC processes (one worker each: with a VIEW the witness history kept per state depends
     on the search order, a single worker makes the export deterministic).  Returns name -> exported histories."""
-    jobs = [(sp, shard) for sp in specs for shard in range(sp["nshards"])]
+    jobs = [(sp, shard) for sp in specs for shard in sp.get("shards", range(sp["nshards"]))]
 
     def one(job):
         sp, shard = job
         cfg = MCCFG.format(n=sp["n"], shard=shard, nshards=sp["nshards"], maxlen=sp["maxlen"], maxmut=sp["maxmut"],
-                           fam=sp["fam"], export="TRUE" if sp["export"] else "FALSE", scheme=sp["scheme"], invs=sp["invs"])
+                           fam=sp["fam"], export="TRUE" if sp["export"] else "FALSE", exportmod=sp.get("exportmod", 1),
+                           scheme=sp["scheme"], invs=sp["invs"])
         return run_tlc("MC_PipelineCache", cfg, ctx.workdir(f"mc_{sp['name']}_{shard}"), workers=1, heap="2g",
                        timeout=timeout, allow_violation=False)
     out: dict[str, list[dict]] = {sp["name"]: [] for sp in specs}
@@ -412,11 +413,14 @@ def run(ctx: Ctx) -> None:
     quick = ctx.tier == "quick"
     rng = random.Random(ctx.seed)
     ctx.rule = ("case = one top-level call of a history on a cached pipeline (description, cached subset, cache type and "
-                "capacity, preceding events, requested output, keywords, convention). Histories: (a) one witness history "
-                "per distinct state of the TLC model of the key scheme (2-function family f2, histories <= 3 events quick / "
-                "<= 4 thorough, plus the 3-function family f3 in thorough), replayed on all four cache types in rotation; "
-                "(b) seeded random histories of 4..12 events on random DAGs of 2..5 functions. non-trivial = the cached "
-                "pipeline skipped at least one function the uncached one executed, or a mutation preceded the call")
+                "capacity, preceding events, requested output, keywords, convention). Histories: (a) witness histories of "
+                "the distinct states of the TLC model of the key scheme as it is (quick: 2-function family q2, <= 3 events; "
+                "thorough: family f2 <= 4 events and half of the 3-function family f3 <= 3 events), a deterministic "
+                "selection stratified by (model verdict, sequence of event kinds), replayed on all four cache types in "
+                "rotation; (b) seeded random histories of 4..12 events on random DAGs of 2..5 functions with every "
+                "calling convention, small capacities, supplied intermediates, defaults left to apply, surplus/missing "
+                "keywords and interleaved update_defaults/update_bound/replace. non-trivial = the cached pipeline skipped "
+                "at least one function the uncached one executed, or a mutation preceded the call")
     ctx.assumptions = ["TLC and the JSON encoding are trusted", "user functions are free term constructors",
                        "HybridCache durations are whatever the run measures (positive, otherwise arbitrary)",
                        "lazy pipelines and Pipeline.map are not driven by this check (map: extension point)",
@@ -433,15 +437,19 @@ def run(ctx: Ctx) -> None:
                  dict(name="rep", n=2, fam="q2", maxlen=3, maxmut=1, scheme="repaired", export=False, nshards=8, invs=rep_invs)]
         budget = 500
     else:
-        specs = [dict(name="asis", n=2, fam="f2", maxlen=4, maxmut=1, scheme="asis", export=True, nshards=16, invs=""),
-                 dict(name="asis3", n=3, fam="f3", maxlen=3, maxmut=1, scheme="asis", export=True, nshards=16, invs=""),
+        # the as-is runs only exhibit and export: f2 completely (every 4th history that ends well is printed), of f3
+        # the half of the instances that falls into the even shards; the repaired design is checked on everything
+        specs = [dict(name="asis", n=2, fam="f2", maxlen=4, maxmut=1, scheme="asis", export=True, nshards=16, exportmod=4, invs=""),
+                 dict(name="asis3", n=3, fam="f3", maxlen=3, maxmut=1, scheme="asis", export=True, nshards=32,
+                      shards=range(0, 32, 2), exportmod=4, invs=""),
                  dict(name="rep", n=2, fam="f2", maxlen=4, maxmut=2, scheme="repaired", export=False, nshards=16, invs=rep_invs),
                  dict(name="rep3", n=3, fam="f3", maxlen=3, maxmut=1, scheme="repaired", export=False, nshards=16, invs=rep_invs),
                  dict(name="repu2", n=2, fam="u2", maxlen=3, maxmut=1, scheme="repaired", export=False, nshards=16, invs=rep_invs)]
         budget = 8000
     exported = model_runs(ctx, specs)
     asis = [h for sp in specs if sp["export"] for h in exported[sp["name"]]]
-    ctx.extra["model_scopes"] = [{k: sp[k] for k in ("name", "fam", "maxlen", "maxmut", "scheme")} for sp in specs]
+    ctx.extra["model_scopes"] = [{k: (list(v) if isinstance(v, range) else v) for k, v in sp.items() if k != "invs"}
+                                 for sp in specs]
     phase = {"model_checking": round(time.time() - t0, 1)}
     if not asis:
         raise MachineryError("no histories exported by the model")
